@@ -51,3 +51,6 @@ Theorem gen_append : gen_append_stmt.
 Proof.
   intros y lab. split; [intros; apply pg_append_str_eq|]. split; [intros; apply pg_append_dec_eq | intros; apply pg_append_int_eq].
 Qed.
+From V Require Import parse.ParseGenThm2.
+Definition gen_parse_numeric_stmt : Prop := forall l idx y r fz,
+  pg_parser_parse_numeric_token l (Z.of_nat idx) y r fz = nmap (parse_numeric l idx y r fz).
